@@ -95,7 +95,7 @@ func (o *ObsC07) begin(x *Exec, snap *Snapshot) {
 	if cur := x.W.curOp; cur >= 0 && cur < len(x.C.Ops) {
 		op := x.C.Ops[cur]
 		for _, k := range append([]Op{op}, op.Sub...) {
-			if k.K == "deliver" || k.K == "syncips" || k.K == "quiesce" {
+			if k.K == "deliver" || k.K == "deliverlate" || k.K == "syncips" || k.K == "quiesce" {
 				o.podIPSync = true
 			}
 		}
